@@ -44,6 +44,24 @@ Theorem C20_record_exists_once_even_with_faults :
     exists w, applied (exec step (init c) ls) = [w] /\ root (e (exec step (init c) ls)) = Some w.
 Proof. exact record_exists_pf. Qed.
 
+(* ---- the winner's cluster.Start fails after its transaction (LStartFail): it is answered an error although the record is
+        stored.  The record is the winner's, nobody has been answered OK; and from then on, whatever is retried, nobody is
+        ever answered OK and the record never changes (the cluster comes up with the next reload).  All theorems above and
+        below hold for histories containing this label; only C20_exactly_one_if_some_valid_completes excludes it (no_fault). ---- *)
+Theorem C20_start_failure_keeps_the_record :
+  forall c ls t n p s', thr (exec step (init c) ls) t = Some (PWon n p) ->
+    step (exec step (init c) ls) (LStartFail t) = Some s' ->
+    e s' = e (exec step (init c) ls) /\ applied s' = [n] /\ root (e s') = Some n /\ acked s' = [] /\ thr s' t = None
+    /\ running s' = running (exec step (init c) ls).
+Proof. exact start_failure_pf. Qed.
+
+Theorem C20_after_start_failure_retries_change_nothing :
+  forall s l s', Inv s -> root (e s) <> None -> acked s = [] -> (forall t n p, thr s t = Some (PWon n p) -> False) ->
+    step s l = Some s' ->
+    root (e s') = root (e s) /\ stores (e s') = stores (e s) /\ regions (e s') = regions (e s) /\ acked s' = []
+    /\ (forall t n p, thr s' t = Some (PWon n p) -> False).
+Proof. exact after_start_failure_pf. Qed.
+
 (* ---- cluster meta, bootstrap time, first store and first region all come from that one request ---- *)
 Theorem C20_stored_all_from_winner :
   forall c ls,
@@ -106,8 +124,8 @@ Theorem C20_mismatched_id_refused :
 Proof. exact mismatched_id_refused_table_pf. Qed.
 
 Theorem C20_validateRequest_compares_cluster_id :
-  In (IfE "header.GetClusterId() != s.clusterID" [Ret] []) skel_validateRequest
-  /\ In "clusterID != s.server.ClusterID()"%string syncer_sync_conds.
+  In (IfE "v1.GetClusterId() != v0.clusterID" [Ret] []) skel_validateRequest      (* v0 = the receiver, v1 = the header parameter *)
+  /\ In "v4 != v0.server.ClusterID()"%string syncer_sync_conds.
 Proof. exact (conj validateRequest_compares syncer_compares). Qed.
 
 (* ... and nothing is done before the validation: apart from receiving on a stream, IsClosed and
@@ -135,6 +153,8 @@ Print Assumptions C20_at_most_one_acknowledged.
 Print Assumptions C20_exactly_one_if_some_valid_completes.
 Print Assumptions C20_winner_is_acknowledged.
 Print Assumptions C20_record_exists_once_even_with_faults.
+Print Assumptions C20_start_failure_keeps_the_record.
+Print Assumptions C20_after_start_failure_retries_change_nothing.
 Print Assumptions C20_stored_all_from_winner.
 Print Assumptions C20_running_implies_bootstrapped.
 Print Assumptions C20_loser_changes_nothing.
